@@ -8,8 +8,10 @@ import (
 	"fmt"
 	"os"
 	"path/filepath"
+	"regexp"
 	"sort"
 	"strconv"
+	"strings"
 	"sync"
 	"sync/atomic"
 	"time"
@@ -58,6 +60,7 @@ type Run struct {
 	samples     []any
 	maxSamples  int
 	outcomes    map[string]int64
+	reasons     map[string]map[string]int
 	violations  []Violation
 	vioSeen     map[string]bool
 	knownHit    map[string]string
@@ -152,6 +155,36 @@ func (r *Run) Outcome(o string) {
 	r.outcomes[o]++
 	r.mu.Unlock()
 }
+
+// Reason records why a negative input of the given class was refused (the implementation's own
+// error text, shortened). The distinct reasons per class go into the evidence: a negative input
+// is only worth something if the rule it targets is what refuses it, and this is where one
+// reads that off.
+func (r *Run) Reason(class, reason string) {
+	if i := strings.Index(reason, "err="); i >= 0 {
+		reason = reason[i+4:] // the application's log line: keep the error itself
+	}
+	reason = reasonRe.ReplaceAllString(reason, "#")
+	if i := strings.Index(reason, " ["); i > 0 {
+		reason = reason[:i] // drop the source position the SDK appends
+	}
+	if len(reason) > 90 {
+		reason = reason[:90]
+	}
+	r.mu.Lock()
+	if r.reasons == nil {
+		r.reasons = map[string]map[string]int{}
+	}
+	if r.reasons[class] == nil {
+		r.reasons[class] = map[string]int{}
+	}
+	if len(r.reasons[class]) < 6 || r.reasons[class][reason] > 0 {
+		r.reasons[class][reason]++
+	}
+	r.mu.Unlock()
+}
+
+var reasonRe = regexp.MustCompile(`[0-9a-fA-F]{8,}|[0-9]+`)
 
 func (r *Run) OutcomeCount(o string) int64 {
 	r.mu.Lock()
@@ -261,6 +294,9 @@ func (r *Run) Finish() int {
 	}
 	for k, v := range r.Extra {
 		cov[k] = v
+	}
+	if len(r.reasons) > 0 {
+		cov["rejection_reasons_by_negative_class"] = r.reasons
 	}
 	ev := map[string]any{
 		"property_id": r.ID,
